@@ -11,7 +11,7 @@ LEVEL = "proof"
 MANIFEST_ENTRY = {
     "category": "proof",
     "text": "Lean 4 theorem `roundtrip` (structural induction over the whole value universe, any depth/width/mix): decode(encode v) = canon v for every well-formed object graph of the executable model of serialize.py (dispatch chain, ndarray fast path with NumPy promotion, empty/0-d arrays, path flags, container and object restoration loops), plus the fixed point of a second save/load (`roundtrip_fixed`: canon is idempotent and preserves well-formedness) and attribute-name exactness (`attr_names_exact`). The model is tied to the code on every run by differential round trips of generated graphs through the real save()/load() (zip and dir stores, all compression levels, str/Path), and the property's own equality is evaluated on the real results as the failing-input search.",
-    "note": "Trusted: Lean kernel + standard axioms; hand model validated by sampled correspondence only; torch.save/dill payloads are opaque tokens (fidelity observed via dtype/shape/values/requires_grad fingerprints), zarr/blosc/JSON/zipfile return what was written, str(i)/int(k) keys of sequence elements abstracted to positions.",
+    "note": "Trusted: Lean kernel + standard axioms; hand model validated by sampled correspondence only; torch.save/dill payloads are opaque tokens (fidelity observed via dtype/shape/values/requires_grad fingerprints), zarr/blosc/JSON/zipfile return what was written, sequence elements are positional children in the value model; the str(i)/int(k) key layer is modelled separately (Model/SeqKeys.lean), proved to be the identity on every list in every storage order (seqDecode_keyed_perm) and compared with the real container code directly.",
     "technique": "Lean 4 proof (structural induction on nested value/tree types) + model-vs-implementation correspondence",
 }
 RULE = ("type-directed random object graphs (every value kind reachable, depth<=4, width<=6) saved with a random store/compression/"
